@@ -20,9 +20,12 @@
 (*            extent.                                                        *)
 EXTENDS PdfFile, TLC
 
-CONSTANTS OFFBYONE    \* TRUE: model the "fix an error seen in some PDF files"
+CONSTANTS OFFBYONE,   \* TRUE: model the "fix an error seen in some PDF files"
                       \* of decodeXRefSection (subsection starting at 1 whose
                       \* first entry is 0000000000 65535 f is shifted down)
+          NULLZERO    \* TRUE: an indirect /Length that resolves to the null
+                      \* object is taken as 0 (reader.go safeGetInteger before
+                      \* commit 8dab642); FALSE: it is unknown
 
 Kinds   == {"table", "stream", "hybrid"}
 OpNames == {"keep",    \* the revision does not touch the object
@@ -282,8 +285,10 @@ Admissible(D, blen, declared) ==
 \* what the standard makes of the declaration: only a non-negative integer
 \* is a length (7.3.8.2; a null entry is an absent entry, 7.3.7)
 RefDeclared(lk, v) == IF lk = "int" /\ v >= 0 THEN v ELSE -1
-\* what the code makes of it: resolve.go asInteger turns null into 0
-ImplDeclared(lk, v) == IF lk = "int" THEN (IF v >= 0 THEN v ELSE -1) ELSE IF lk = "null" THEN 0 ELSE -1
+\* what the code makes of it (reader.go safeGetInteger, scanner.go
+\* ReadStreamData): negative, non-integer and null lengths are unknown
+ImplDeclared(lk, v) == IF lk = "int" THEN (IF v >= 0 THEN v ELSE -1)
+                       ELSE IF lk = "null" /\ NULLZERO THEN 0 ELSE -1
 
 \* scanner.go: endstreamAt, Find(endstreamPat), trimTrailingEOL
 EndstreamAt(D, pos) == LET j == SkipWS(D, pos + 1) IN KeywordAt(D, j)
@@ -296,12 +301,9 @@ ImplExtent(D, declared) ==
   IF declared >= 0 /\ declared <= Len(D) /\ EndstreamAt(D, declared) THEN declared
   ELSE LET p == FindEOLKw(D) IN IF p = 0 THEN -1 ELSE Trim(D, p - 1)
 
-\* the two classes in which the code departs from the property as stated:
-\* (1) a short length whose remainder of the body is white space is trusted,
-\* so the trailing white space of the data is dropped;
+\* the class in which the code departs from the property as stated: a short
+\* length whose remainder of the body is white space is trusted (endstreamAt
+\* skips white space), so the trailing white space of the data is dropped
 ShortIntoTrailingWS(D, blen, declared) ==
   declared >= 0 /\ declared < blen /\ SkipWS(D, declared + 1) = TermPos(D, blen)
-\* (2) a /Length that refers to a missing or free object is taken as 0, and 0
-\* is trusted when the data are all white space or begin with `endstream'
-NullTakenAsZero(D, blen, lk) == lk = "null" /\ blen > 0 /\ EndstreamAt(D, 0)
 =============================================================================
